@@ -121,6 +121,14 @@ package geojson
 //@   ensures Shape: okShape(result0, result1)
 //@   ensures RequireValid: result1 == nil && opts.RequireValid ==> oValidS(result0)
 
+//@ lemma polyShapeCopy(P *geometry.Poly, Q *geometry.Poly)
+//@   props C05 C07 C08
+//@   requires geometry.PolyShape(P) && Q != nil && Q.Exterior == P.Exterior && Q.Holes == P.Holes
+//@   ensures geometry.PolyShape(Q)
+//@ lemma shapeOfRectOrPolygon(o Object)
+//@   props C05 C07 C08
+//@   requires isRectK(o) || (isPolygonK(o) && polyShapeS(polyOf(o)))
+//@   ensures ObjShape(o)
 //@ func parseJSONPolygon
 //@   props C05 C07 C08
 //@   arith order
@@ -131,6 +139,10 @@ package geojson
 //@   ensures RequireValid: result1 == nil && opts.RequireValid ==> oValidS(result0)
 //@   loop 0 invariant Frame: (forall P *geometry.Poly :: old($alloc)[P] ==> (P.Exterior == old(P.Exterior) && P.Holes == old(P.Holes))) && (forall q *Polygon :: old($alloc)[q] ==> q.extra == old(q.extra)) && (forall e *extra :: old($alloc)[e] ==> e.members == old(e.members))
 //@   loop 0 invariant FreshX: extra != nil ==> !old($alloc)[extra]
+//@   stmt polygon.go:"o = &g" use polyShapeCopy(poly, g.base)
+//@   stmt polygon.go:"o = &g" assert GShape: geometry.PolyShape(g.base)
+//@   stmt polygon.go:"if opts.RequireValid {" assert Kind: isRectK(o) || (isPolygonK(o) && polyShapeS(polyOf(o)))
+//@   stmt polygon.go:"if opts.RequireValid {" use shapeOfRectOrPolygon(o)
 
 // ---- leaf constructors
 //@ func NewRect
